@@ -444,11 +444,15 @@ func Run(tier string) {
 		n := xlate.RemovalUnregisters(w, func(sig, what string, r map[string]interface{}) {
 			run.Report(evid.Violation{Signature: "C15:driver-" + sig, Engine: "E2-shapes", Scenario: "removal-unregisters", What: what, Replay: r})
 		})
+		n2 := xlate.CreateRegisters(w, func(sig, what string, r map[string]interface{}) {
+			run.Report(evid.Violation{Signature: "C15:driver-" + sig, Engine: "E2-shapes", Scenario: "creation-registers", What: what, Replay: r})
+		})
 		w.Close()
 		run.Set("driver_removal_evaluations", n)
+		run.Set("driver_creation_evaluations", n2)
 	}
 	RunSchedules(run, tier, smp, &total)
-	seqx.Finish(run, total, smp, fmt.Sprintf("part 1: sessions {1,2} x URRs {1,2} x periods {P1,P2}, Add/Del/Tick (incl. stale ticks and Del of an unregistered URR)/Close, all histories to depth %d (completed %d) on the real perio.Server goroutine; part 4: Gtp5g.CreateURR x3 / RemoveURR over the simulated kernel with the removed URR present or already lost in the data plane (ENOENT), tick read back from GET_MULTI_REPORTS; part 3: queryMultiURR with 1..3 sessions x {0,1,55,56,57,111,112,113,200} URRs over all 2-session splits and a lattice of 3-session splits", sp.MaxDepth, st.DepthDone))
+	seqx.Finish(run, total, smp, fmt.Sprintf("part 1: sessions {1,2} x URRs {1,2} x periods {P1,P2}, Add/Del/Tick (incl. stale ticks and Del of an unregistered URR)/Close, all histories to depth %d (completed %d) on the real perio.Server goroutine; part 4: Gtp5g.CreateURR with / without the periodic trigger under all 24 child orders, and CreateURR x3 / RemoveURR over the simulated kernel with the removed URR present or already lost in the data plane (ENOENT), tick read back from GET_MULTI_REPORTS; part 3: queryMultiURR with 1..3 sessions x {0,1,55,56,57,111,112,113,200} URRs over all 2-session splits and a lattice of 3-session splits", sp.MaxDepth, st.DepthDone))
 	run.Assumption("ticks are injected events (posted to the server's event channel as the ticker goroutine does); real tickers run with periods of an hour and more")
 	run.Assumption("each URR is registered at most once at a time, as the quantifier says")
 	run.Finish()
